@@ -383,7 +383,7 @@ def run_spaces(R, name, default=False, env=None):
 
     def cmp(spec, space, path):
         if isinstance(spec, specs.DiscreteArray):
-            if not isinstance(space, gym.spaces.Discrete) or int(space.n) != int(spec.num_values):
+            if not isinstance(space, gym.spaces.Discrete) or int(space.n) != int(spec.num_values) or int(getattr(space, "start", 0)) != 0:
                 bad.append(f"{path}: Discrete n")
         elif isinstance(spec, specs.MultiDiscreteArray):
             if not isinstance(space, gym.spaces.MultiDiscrete) or not np.array_equal(np.asarray(space.nvec), np.asarray(spec.num_values)):
@@ -414,8 +414,8 @@ def run_spaces(R, name, default=False, env=None):
 
     def cmp_dm(spec, d, path):
         if isinstance(spec, specs.DiscreteArray):
-            if not isinstance(d, ds.DiscreteArray) or int(d.num_values) != int(spec.num_values):
-                bad2.append(f"{path}: DiscreteArray")
+            if not isinstance(d, ds.DiscreteArray) or int(d.num_values) != int(spec.num_values) or np.dtype(d.dtype) != np.dtype(spec.dtype) or tuple(d.shape) != tuple(spec.shape):
+                bad2.append(f"{path}: DiscreteArray (num_values {getattr(d, 'num_values', None)} dtype {getattr(d, 'dtype', None)} vs spec {spec.num_values} {np.dtype(spec.dtype)})")
         elif isinstance(spec, specs.BoundedArray):
             if not isinstance(d, ds.BoundedArray) or tuple(d.shape) != tuple(spec.shape) or np.dtype(d.dtype) != np.dtype(spec.dtype) or \
                     not np.array_equal(np.broadcast_to(d.minimum, d.shape), np.broadcast_to(np.asarray(spec.minimum), spec.shape).astype(d.dtype)) or \
